@@ -7,6 +7,7 @@ package models
 import (
 	"bytes"
 	"net/url"
+	"sort"
 	"strings"
 	"testing"
 	"text/template"
@@ -158,6 +159,21 @@ func TestRunes(t *testing.T) {
 	for b := 0; b < 256; b++ {
 		if utf8.RuneStart(byte(b)) != verifModel_utf8_RuneStart(byte(b)) {
 			t.Fatalf("RuneStart(%x)", b)
+		}
+	}
+}
+
+func TestSortStrings(t *testing.T) {
+	ins := inputs()
+	for i := 0; i+4 < 20000; i += 3 {
+		a := []string{ins[i], ins[(i*7+1)%len(ins)], ins[(i*13+5)%len(ins)], ins[i+4]}
+		b := append([]string{}, a...)
+		sort.Strings(a)
+		verifModel_sort_Strings(b)
+		for k := range a {
+			if a[k] != b[k] {
+				t.Fatalf("sort.Strings: %q vs %q", a, b)
+			}
 		}
 	}
 }
